@@ -112,6 +112,7 @@ class Run:
         self.violations = []  # dicts sig,msg,case
         self.samples = []
         self.counters = {}
+        self.sets = {}
         self.coverage_extra = {}
         self.assumptions = []
         self.rule = ""
@@ -148,6 +149,8 @@ class Run:
         for k, n in part.get("counters", {}).items():
             if isinstance(n, (int, float)):
                 self.counters[k] = self.counters.get(k, 0) + n
+            elif isinstance(n, list):
+                self.sets.setdefault(k, set()).update(n)
             else:
                 self.counters.setdefault(k, n)
 
